@@ -283,6 +283,11 @@ class World:
         if self.success(s.eff):
             if name is not None:
                 if col is not None and name in col.members:
+                    m_ = col.members[name]
+                    if not hasattr(col, "deleted_bodies"):
+                        col.deleted_bodies = []
+                    col.deleted_bodies.append((name, m_.served if m_.served is not None else m_.uploaded, m_.uid))
+                    del col.deleted_bodies[:-5]
                     del col.members[name]
                     col.dirty = True
                     if name not in col.graves:
